@@ -24,7 +24,7 @@ CLAIMS["C20"] = {
     "technique": "static analysis: who-may-write enumeration over object_t.uid/.euid in all units, guard dominance (edge atoms), master-approval gate reachability, who-may-call on get_empty_object, freshness of the euid gate (no LPC-running call between the last euid test and the creation, master-only hooks reported undecided), who-may-write on the name of shared uid records with a first-load guard on the two renaming setters",
     "text": "Every store to uid/euid anywhere in the driver (plus bulk writes over an object_t) is enumerated and each must be an allow-listed site meeting its dominating "
             "condition (seteuid only under MASTER_APPROVED(valid_seteuid) or to 0 on the caller; export_uid only from a non-zero euid onto a zero-euid target; creation-time uid only after the creator_file apply). "
-            "Object creation (get_empty_object/compile_file/load_binary) is shown unreachable without crossing the euid gate on every CFG path. Universal over sites and paths; the data-dependent backbone branch is not decided. The euid test is repeated after any call that can run LPC code before the object is created (clone_object() tested only before loading the blueprint: found by audit, fixed). A uid record that objects point at is never renamed after the first load of the master object. The file-scope pointers to the well-known uid records are cleared where the records are freed in bulk (C20-e).",
+            "Object creation (get_empty_object/compile_file/load_binary) is shown unreachable without crossing the euid gate on every CFG path. Universal over sites and paths; the data-dependent backbone branch is not decided. The euid test is repeated after any call that can run LPC code before the object is created (clone_object() tested only before loading the blueprint: found by audit, fixed). A uid record that objects point at is never renamed after the first load of the master object. The file-scope pointers to the well-known uid records are cleared where the records are freed in bulk (C20-e). add_uid() answers a name only with the record the tree search finds for its interned copy, or a new one (C20-f).",
     "design_ref": "DESIGN.md §5 C20",
 }
 
@@ -81,7 +81,7 @@ CLAIMS["C12"] = {
     "technique": "static analysis: guard dominance and avoid-set reachability in backend() and get_user_command(), who-may-write/read on the HAS_CMD_TURN bit over all units, must-pass-through of the cursor advance between the pick and the return of get_user_command, interprocedural provenance (constant / masked) of every value stored into the flag word that holds the turn bit",
     "text": "Decides the turn mechanism structurally: the grant loop covers every slot below max_users and precedes the command loop on every path of a backend iteration; "
             "the turn is consumed and a user selected only under (complete command) and (turn held), a user without a turn keeps command and turn, and no code but the grant loop and get_user_command touches the bit "
-            "(so command() issued from LPC is never limited). The round-robin cursor is advanced inside get_user_command on every path that returns a command, i.e. before the command can leave by longjmp. Fairness over schedules and per-user ordering are not decided. Every value stored into iflags is a constant or is cut down by a constant mask without the turn and command bits, at the store or at every call site. max_users, the bound of every scan of the user table, is never lowered (C12-h).",
+            "(so command() issued from LPC is never limited). The round-robin cursor is advanced inside get_user_command on every path that returns a command, i.e. before the command can leave by longjmp. Fairness over schedules and per-user ordering are not decided. Every value stored into iflags is a constant or is cut down by a constant mask without the turn and command bits, at the store or at every call site. max_users, the bound of every scan of the user table, is never lowered (C12-h). Stores that cut iflags down with a mask are read by value: a mask without the command-available or turn bit is a clear of that bit (C12-f, C12-c).",
     "design_ref": "DESIGN.md §5 C12",
 }
 
@@ -130,7 +130,7 @@ CLAIMS["C19"] = {
     "technique": "static analysis: lockset dataflow (must-hold) over the message queue, thread-root closures from the call graph with shared-variable atomicity check, who-may-write on the eventfd counter, cross-thread write sites relative to thread creation, record-size and must-store path analysis of the notification pipe's reader",
     "text": "Decides race-freedom structurally where it can: every access to a mutable field or slot of the message queue is under the queue mutex on every path, no path returns with it held, the blocking writer releases it around its wait; "
             "variables written in a thread root's closure (timer thread, worker thread) and read by the backend must be atomic or locked (three are not: recorded findings); an eventfd counter may only be written with the constant 1 "
-            "(the completion post encodes key/data in it: recorded finding); a variable a thread root writes is stored by other threads only before pthread_create (one site is not: recorded finding). On the pipe that replaced the eventfd each record is one atomic write, each read takes one record while the caller's array has room, every record taken is stored, and a completion is answered with 0 only behind a whole-record write (function summaries through file-local helpers). Exactly-once delivery under interleavings, FIFO order and termination of stop are schedule-dependent and not decided. The write end of the notify pipe is non-blocking, so a poster cannot stall against a main thread that is joining it (C19-c pipe-write-nonblocking).",
+            "(the completion post encodes key/data in it: recorded finding); a variable a thread root writes is stored by other threads only before pthread_create (one site is not: recorded finding). On the pipe that replaced the eventfd each record is one atomic write, each read takes one record while the caller's array has room, every record taken is stored, and a completion is answered with 0 only behind a whole-record write (function summaries through file-local helpers). Exactly-once delivery under interleavings, FIFO order and termination of stop are schedule-dependent and not decided. The write end of the notify pipe is non-blocking, so a poster cannot stall against a main thread that is joining it (C19-c pipe-write-nonblocking). The queue cursors wrap at the capacity the ring was allocated with (C19-f).",
     "design_ref": "DESIGN.md §5 C19",
 }
 
